@@ -324,7 +324,39 @@ pub fn gen_c01(seed: u64, thorough: bool) {
     let src = Sources::new();
     let n = if thorough { 800 } else { 60 };
     for i in 0..n {
-        let (mut e, kind) = src.any_engine(&mut rng);
+        println!("{}", pipe_case(&mut rng, &src, i, "C01"));
+    }
+    // the same pipeline driven from the voice files alone (header, trees, PDFs, interpolation included)
+    gen_e2e(&mut rng, &src, "C01", if thorough { 200 } else { 24 });
+}
+
+/// The engine tie shared by every property whose subject is reached through `Engine::generator`: a few whole-pipeline
+/// cases (random voice, labels and in-envelope condition incl. rate / frame-period overrides, speed, alignment, volume,
+/// half tone, thresholds, GV weights, alpha, beta) whose durations, trajectories and waveform are compared with the model
+/// composition.  A property's own generators exercise its stage through the stage's public API; this class is what
+/// notices a change in the glue that feeds the stage (which setting reaches which stage, in which unit).
+pub fn gen_tie(seed: u64, tag: &str, thorough: bool) {
+    let mut rng = Rng::new(seed ^ 0x7e11_0000_u64);
+    let src = Sources::new();
+    let n = if thorough { 120 } else { 10 };
+    for k in 0..n {
+        // indices chosen so that the long bundled-voice cases (i % 6 == 0) and the empty utterance are skipped
+        let i = 6 * k + 1 + k % 5;
+        println!("{}", pipe_case(&mut rng, &src, i, tag));
+    }
+}
+
+/// like `gen_tie`, from the voice files alone
+pub fn gen_tie_e2e(seed: u64, tag: &str, thorough: bool) {
+    let mut rng = Rng::new(seed ^ 0x7e11_e2e0_u64);
+    let src = Sources::new();
+    gen_e2e(&mut rng, &src, tag, if thorough { 60 } else { 6 });
+}
+
+pub fn pipe_case(rng: &mut Rng, src: &Sources, i: usize, tag: &str) -> String {
+    {
+        let mut rng: &mut Rng = rng;
+        let (mut e, kind) = src.any_engine(rng);
         let small = i % 6 != 0;
         random_condition(&mut rng, &mut e, small);
         let vdb = if rng.chance(0.4) { rng.uniform(-20.0, 20.0) } else { 0.0 };
@@ -366,10 +398,8 @@ pub fn gen_c01(seed: u64, thorough: bool) {
                 t += len;
             }
         }
-        println!("{}", pipe_line("C01", &e, vdb, &lines, kind));
+        pipe_line(tag, &e, vdb, &lines, kind)
     }
-    // the same pipeline driven from the voice files alone (header, trees, PDFs, interpolation included)
-    gen_e2e(&mut rng, &src, "C01", if thorough { 200 } else { 24 });
 }
 
 // =========================================================================================== helpers
